@@ -15,6 +15,8 @@ pub(crate) mod verif_sym {
     #[derive(Clone, Debug, PartialEq, Eq)]
     pub struct SymType { pub input_len: usize, pub proof_len: usize, pub verifier_len: usize, pub joint_rand_len: usize, pub prove_rand_len: usize, pub query_rand_len: usize, pub output_len: usize }
     pub static mut DECIDE_CALLS: usize = 0;
+    pub static mut ENC_MEAS: u64 = 0;        // raw representation returned by encode_measurement
+    pub static mut STREAM_BYTE0: u8 = 0;     // every 8-byte chunk of the XOF output is [STREAM_BYTE0,0,0,0,0,0,0,0]
     pub static mut DECIDE_RESULT: u8 = 1;   // 0 => Ok(false), 1 => Ok(true), 2 => Err
     fn zeros(n: usize) -> Vec<Field64> { match n { 0 => vec![], 1 => vec![Field64::zero()], 2 => vec![Field64::zero(); 2], 3 => vec![Field64::zero(); 3], _ => vec![Field64::zero(); 4] } }
     impl Flp for SymType {
@@ -46,7 +48,7 @@ pub(crate) mod verif_sym {
     impl Type for SymType {
         type Measurement = u8;
         type AggregateResult = u8;
-        fn encode_measurement(&self, _m: &u8) -> Result<Vec<Field64>, FlpError> { Ok(zeros(self.input_len)) }
+        fn encode_measurement(&self, _m: &u8) -> Result<Vec<Field64>, FlpError> { if self.input_len == 1 { Ok(vec![crate::field::verif_field_util::mk64(unsafe { ENC_MEAS })]) } else { Ok(zeros(self.input_len)) } }
         fn truncate(&self, input: Vec<Field64>) -> Result<Vec<Field64>, FlpError> { if input.len() != self.input_len { return Err(FlpError::Truncate(String::new())); } Ok(input) }
         fn decode_result(&self, _d: &[Field64], _n: usize) -> Result<u8, FlpError> { Ok(0) }
         fn output_len(&self) -> usize { self.output_len }
@@ -68,7 +70,7 @@ pub(crate) mod verif_sym {
         type Error = Infallible;
         fn try_next_u32(&mut self) -> Result<u32, Infallible> { Ok(0) }
         fn try_next_u64(&mut self) -> Result<u64, Infallible> { Ok(0) }
-        fn try_fill_bytes(&mut self, dest: &mut [u8]) -> Result<(), Infallible> { dest.fill(0); Ok(()) }
+        fn try_fill_bytes(&mut self, dest: &mut [u8]) -> Result<(), Infallible> { dest.fill(0); let b0 = unsafe { STREAM_BYTE0 }; if b0 != 0 { let mut i = 0; while i < dest.len() { dest[i] = b0; i += 8; } } Ok(()) }
     }
     impl Xof<16> for RecXof {
         type SeedStream = ZeroStream;
